@@ -53,7 +53,7 @@ pub fn full_universe() -> Vec<[ATerm; 3]> {
     }
     v
 }
-/// reduced universe for deeper structures (lists, cycles): 3 x 3 x 4 = 36 triples
+/// reduced universe for deeper structures (lists, cycles): 3 x 3 x 4 = 36 triples + 2 rdf:type rdf:List triples
 pub fn reduced_universe() -> Vec<[ATerm; 3]> {
     let subjects = [ATerm::b("a"), ATerm::b("b"), ex("x")];
     let preds = [rdf("first"), rdf("rest"), ex("p")];
@@ -66,6 +66,9 @@ pub fn reduced_universe() -> Vec<[ATerm; 3]> {
             }
         }
     }
+    // typed list cells (their rdf:type triple must survive list compaction)
+    v.push([ATerm::b("a"), rdf("type"), rdf("List")]);
+    v.push([ATerm::b("b"), rdf("type"), rdf("List")]);
     v
 }
 fn graph_names() -> Vec<Option<ATerm>> {
